@@ -28,6 +28,10 @@ const c25Rule = "SQL programs of 10-28 statements drawn by rapid over one table 
 
 const c25Finding = "C25-keyless-prefix-outofband"
 
+// index prefix lengths cut multi-byte characters (bytes, not characters): lookups through a
+// prefix part of a case/accent-insensitive column miss rows
+const c25FindingPrefix = "C25-prefix-bytes-multibyte"
+
 var c25Colls = []string{"utf8mb4_0900_bin", "utf8mb4_0900_ai_ci", "utf8mb4_general_ci"}
 
 var c25ShortStrs = []string{"a", "A", "á", "b", "B", "ab", "Ab", "aB", "abc", "abd", "ABC", "e", "É", "日本", "日本語", "日", "z", "", "0"}
@@ -52,6 +56,7 @@ type c25State struct {
 	db     string
 	sch    *sxSchema
 	ops    []string
+	full   []string // unabridged statements, for failure reports
 	nName  int
 
 	branches []string
@@ -60,6 +65,8 @@ type c25State struct {
 	// the known finding restricts keyless tables to short TEXT/BLOB values
 	shortText bool
 	excluded  int
+	// finding C25-prefix-bytes-multibyte is listed open: skip the affected point lookups
+	skipPrefixMB bool
 
 	lastRows [][]string
 
@@ -80,12 +87,26 @@ func (c *c25State) name(prefix string) string {
 // exec runs a program statement; an error is recorded and tolerated.
 func (c *c25State) exec(q string) error {
 	err := c.s.Exec(q)
+	c.full = append(c.full, q+";")
 	short := q
 	if len(short) > 160 {
 		short = short[:160] + "…"
 	}
 	if err != nil {
 		c.ops = append(c.ops, fmt.Sprintf("%s -- ERR %d", short, vsql.ErrCode(err)))
+		c.full[len(c.full)-1] += fmt.Sprintf(" -- ERR %d", vsql.ErrCode(err))
+		if vsql.ErrCode(err) == 0 && (strings.Contains(err.Error(), "connection") || strings.Contains(err.Error(), "EOF")) {
+			// the server dropped the connection (a recovered panic in the handler): not this
+			// property's business; continue on a new connection
+			c.class("connection_lost")
+			c.s.Close()
+			c.s = c.srv.Session(c.rt, "p", c.db)
+			c.s.MustExec(c.rt, "SET @@dolt_allow_commit_conflicts = 1")
+			c.s.MustExec(c.rt, "SET @@dolt_force_transaction_commit = 1")
+			if c.cur != "main" {
+				_ = c.s.Exec("CALL dolt_checkout('" + c.cur + "')")
+			}
+		}
 	} else {
 		c.ops = append(c.ops, short)
 	}
@@ -591,7 +612,7 @@ func (c *c25State) fullScan(asOf string) [][]string {
 }
 
 func (c *c25State) fail(format string, args ...any) {
-	c.rt.Fatalf("%s\nschema: %s\nprogram:\n  %s", fmt.Sprintf(format, args...), c.curRaw(), strings.Join(c.ops, "\n  "))
+	c.rt.Fatalf("%s\nschema: %s\nprogram:\n  %s", fmt.Sprintf(format, args...), c.curRaw(), strings.Join(c.full, "\n  "))
 }
 
 func (c *c25State) curRaw() string {
@@ -722,6 +743,11 @@ func (c *c25State) lookups(sch *sxSchema, ix sxIndex, rows [][]string, asOfSQL, 
 		}
 		var conds []string
 		tooLong := false
+		if c.skipPrefixMB && c25PrefixMBAffected(sch, ix.Cols[:n], pv, rows) {
+			c.excluded++
+			c.class("lookup_excluded_known")
+			continue
+		}
 		for i := 0; i < n; i++ {
 			col := sch.col(ix.Cols[i].Name)
 			if len(pv[i]) > 8000 {
@@ -762,6 +788,52 @@ func (c *c25State) lookups(sch *sxSchema, ix sxIndex, rows [][]string, asOfSQL, 
 		}
 		c.class("sql_lookup")
 	}
+}
+
+func c25NonASCII(v string) bool {
+	if v == vsql.Null {
+		return false
+	}
+	for i := 0; i < len(v); i++ {
+		if v[i] >= 0x80 {
+			return true
+		}
+	}
+	return false
+}
+
+// c25PrefixMBAffected is the signature of finding C25-prefix-bytes-multibyte: the lookup
+// constrains a non-binary-collated string column that is a prefix-length part of some index
+// of the table (dolt may pick any of them), and the probe or the stored values of that column
+// contain multi-byte characters.
+func c25PrefixMBAffected(sch *sxSchema, used []sxIdxCol, probe []string, rows [][]string) bool {
+	for i, u := range used {
+		col := sch.col(u.Name)
+		if col.IsInt || col.Coll == "binary" || strings.HasSuffix(col.Coll, "_bin") {
+			continue
+		}
+		prefixed := false
+		for _, ix := range sch.Indexes {
+			for _, ic := range ix.Cols {
+				if ic.Name == u.Name && ic.Prefix > 0 {
+					prefixed = true
+				}
+			}
+		}
+		if !prefixed {
+			continue
+		}
+		if c25NonASCII(probe[i]) {
+			return true
+		}
+		k := sch.colIdx(u.Name)
+		for _, r := range rows {
+			if c25NonASCII(r[k]) {
+				return true
+			}
+		}
+	}
+	return false
 }
 
 func idxColNames(ix sxIndex) []string {
@@ -897,16 +969,16 @@ func (c *c25State) finalSweep() {
 
 // ---------------------------------------------------------------------------------------
 
-func c25Case(rt *rapid.T, srv *vsql.Server, admin *vsql.Session, rec *vh.Recorder, shortText bool) {
+func c25Case(rt *rapid.T, srv *vsql.Server, admin *vsql.Session, rec *vh.Recorder, shortText, skipPrefixMB bool) {
 	db := srv.NewDBName()
 	admin.MustExec(rt, "CREATE DATABASE "+db)
 	defer admin.Exec("DROP DATABASE " + db)
 	s := srv.Session(rt, "p", db)
-	defer s.Close()
 	s.MustExec(rt, "SET @@dolt_allow_commit_conflicts = 1")
 	s.MustExec(rt, "SET @@dolt_force_transaction_commit = 1")
 	c := &c25State{rt: rt, srv: srv, inproc: &sxInProc{srv: srv}, s: s, db: db, branches: []string{"main"}, cur: "main",
-		shortText: shortText, classes: map[string]bool{}, planCache: map[string]bool{}, validatedCommits: map[string]bool{}}
+		shortText: shortText, skipPrefixMB: skipPrefixMB, classes: map[string]bool{}, planCache: map[string]bool{}, validatedCommits: map[string]bool{}}
+	defer func() { c.s.Close() }()
 
 	// schema
 	shape := rapid.SampledFrom([]string{"pk", "pk", "pk", "pk2", "keyless", "keyless"}).Draw(rt, "shape")
@@ -1026,6 +1098,24 @@ func c25Pinned(t *testing.T, srv *vsql.Server, admin *vsql.Session) string {
 	return ""
 }
 
+// c25PinnedPrefix is the reproduction of finding C25-prefix-bytes-multibyte.
+func c25PinnedPrefix(t *testing.T, srv *vsql.Server, admin *vsql.Session) string {
+	db := srv.NewDBName()
+	admin.MustExec(t, "CREATE DATABASE "+db)
+	defer admin.Exec("DROP DATABASE " + db)
+	s := srv.Session(t, "pin", db)
+	defer s.Close()
+	s.MustExec(t, "CREATE TABLE t (pk INT PRIMARY KEY, b VARCHAR(16) COLLATE utf8mb4_general_ci, KEY ib (b(1)))")
+	s.MustExec(t, "INSERT INTO t VALUES (1,'a'),(2,'á'),(3,'A')")
+	through := s.MustQuery(t, "SELECT pk FROM t WHERE b = 'a' ORDER BY pk")
+	s.MustExec(t, "DROP INDEX ib ON t")
+	scan := s.MustQuery(t, "SELECT pk FROM t WHERE b = 'a' ORDER BY pk")
+	if !vsql.EqualStrings(through.Ordered(), scan.Ordered()) {
+		return fmt.Sprintf("VARCHAR general_ci column with KEY (b(1)), rows 'a','á','A': WHERE b = 'a' returns pk %s with the prefix index and pk %s without it", vsql.Show(through.Ordered()), vsql.Show(scan.Ordered()))
+	}
+	return ""
+}
+
 func TestVerif_C25(t *testing.T) {
 	rec := vh.NewRecorder("C25", "programs", "exploration", c25Rule,
 		"statements of the generated program may fail; nothing is asserted about their outcome, only that indexes mirror whatever rows the full scan returns",
@@ -1033,7 +1123,8 @@ func TestVerif_C25(t *testing.T) {
 		"index prefix lengths are compared as dolt applies them (bytes); a character-based rule is accepted as well",
 		"collation equality classes are modelled only for the generated alphabet (ASCII, á, É, CJK; no trailing spaces)",
 		"in-process reading decodes integer and string/byte key fields only (the generator creates no other indexed types)",
-		"while finding "+c25Finding+" is listed open, keyless tables get no out-of-band (long) TEXT/BLOB values; such cases are counted as excluded_known")
+		"while finding "+c25Finding+" is listed open, keyless tables get no out-of-band (long) TEXT/BLOB values; such cases are counted as excluded_known",
+		"while finding "+c25FindingPrefix+" is listed open, point lookups constraining a non-binary-collated column that is a prefix-length part of some index are skipped when the probe or the column holds multi-byte characters (counted as excluded_known); full-range index scans and the stored-map comparison stay active")
 	defer rec.Write(t)
 	srv, stop := sxStart(t, "c25")
 	defer stop()
@@ -1049,5 +1140,16 @@ func TestVerif_C25(t *testing.T) {
 			t.Errorf("%s", msg)
 		}
 	})
-	vh.Check(t, "programs", 110, 220, func(rt *rapid.T) { c25Case(rt, srv, admin, rec, open) })
+	openPfx := vh.OpenFinding("C25", c25FindingPrefix)
+	t.Run("pinned_prefix_bytes_multibyte", func(t *testing.T) {
+		if msg := c25PinnedPrefix(t, srv, admin); msg != "" {
+			if openPfx {
+				vh.ReportKnown("C25", c25FindingPrefix, msg)
+				return
+			}
+			vh.NoteViolation(t.Name(), "", `{"sql":["CREATE TABLE t (pk INT PRIMARY KEY, b VARCHAR(16) COLLATE utf8mb4_general_ci, KEY ib (b(1)))","INSERT INTO t VALUES (1,'a'),(2,'á'),(3,'A')","SELECT pk FROM t WHERE b = 'a'"],"observed":"`+strings.ReplaceAll(msg, `"`, `'`)+`"}`)
+			t.Errorf("%s", msg)
+		}
+	})
+	vh.Check(t, "programs", 110, 220, func(rt *rapid.T) { c25Case(rt, srv, admin, rec, open, openPfx) })
 }
